@@ -1,6 +1,8 @@
 package main
 
 import (
+	"go/types"
+	"strings"
 	"golang.org/x/tools/go/ssa"
 )
 
@@ -69,6 +71,51 @@ func checkC12(c *Ctx) {
 				{"X-equal", `^ok Element\.Equal\(local:PointAffine\.X,local:PointAffine\.X\)$`},
 				{"Y-equal", `^ok Element\.Equal\(local:PointAffine\.Y,local:PointAffine\.Y\)$`},
 			})
+		}
+		if fn := p.Func(pk, "PublicKey", "Verify"); fn != nil {
+			// A is only known to be on the curve (SetBytes, Verify test IsOnCurve, not the subgroup):
+			// the scalar that multiplies A is used as computed from the hash — reducing it modulo the
+			// subgroup order changes [k]A for keys with a small-order component
+			c.Instance("C12.guard", 1)
+			ok, where := true, p.Pos(fn.Pos())
+			for _, b := range fn.Blocks {
+				for _, in := range b.Instrs {
+					call, isCall := in.(*ssa.Call)
+					if !isCall || len(call.Call.Args) != 3 {
+						continue
+					}
+					cl := calleeOf(&call.Call)
+					if cl.Name != "ScalarMultiplication" || !strings.HasSuffix(descValue(call.Call.Args[1], 0), ".A") {
+						continue
+					}
+					scalar := fluentRoot(call.Call.Args[2])
+					for _, b2 := range fn.Blocks {
+						for _, in2 := range b2.Instrs {
+							c2, isCall2 := in2.(*ssa.Call)
+							if !isCall2 || len(c2.Call.Args) != 3 {
+								continue
+							}
+							cl2 := calleeOf(&c2.Call)
+							if cl2.Pkg != "math/big" || (cl2.Name != "Mod" && cl2.Name != "Rem") {
+								continue
+							}
+							if fluentRoot(c2.Call.Args[0]) == scalar && strings.Contains(descValue(c2.Call.Args[2], 0), "Order") && instrMayPrecede(fn, c2, call) {
+								ok = false
+								where = p.Pos(c2.Pos())
+							}
+						}
+					}
+				}
+			}
+			// a verification that establishes subgroup membership of the key first may reduce
+			for _, b := range fn.Blocks {
+				for _, in := range b.Instrs {
+					if call, isCall := in.(*ssa.Call); isCall && strings.Contains(calleeOf(&call.Call).Name, "SubGroup") {
+						ok = true
+					}
+				}
+			}
+			c.Ob("C12.guard", pk, funcKey(fn), "key-scalar-not-reduced-mod-order", where, ok, funcKey(fn)+": the scalar that multiplies the public key is reduced modulo the subgroup order; the key is only known to be on the curve, for a key with a small-order component [k mod r]A differs from [k]A and valid signatures are rejected")
 		}
 		if fn := need("PrivateKey", "Sign"); fn != nil {
 			RequireFacts(c, p, "C12.guard", fn, AcceptNilErr, nil, []Req{
@@ -244,4 +291,16 @@ func checkC12(c *Ctx) {
 		c.Trust(t)
 	}
 	c.Assume("G1Affine.SetBytes validates the point (C07); PointAffine.SetBytes is strict (C07)")
+}
+
+// fluentRoot: the object a fluent chain x.F(..).G(..) operates on (the receiver of the first call).
+func fluentRoot(v ssa.Value) ssa.Value {
+	for i := 0; i < 16; i++ {
+		c, ok := v.(*ssa.Call)
+		if !ok || len(c.Call.Args) == 0 || c.Call.IsInvoke() || !types.Identical(c.Type(), c.Call.Args[0].Type()) {
+			break
+		}
+		v = c.Call.Args[0]
+	}
+	return addrBase(v)
 }
